@@ -7,6 +7,7 @@ CONSTANTS
   PolA = "any"
   PolQ = "any"
   PolW = "any"
+  FormOf <- FormsOrigin
   MwEnabled = TRUE
   Variant = "asWritten"
   KeepRecords = FALSE
